@@ -474,3 +474,52 @@ pub fn queen_storm_position(rng: &mut Rng) -> Pos {
         }
     }
 }
+
+/// Legal position rich in large material swings: pawns about to promote with captures available
+/// on the last rank, and queens that can be taken and taken back.
+pub fn swing_position(rng: &mut Rng) -> Pos {
+    loop {
+        let mut p = Pos::empty();
+        let wk = *rng.pick(&[4u8, 6, 2, 1, 12, 14]);
+        let bk = *rng.pick(&[60u8, 62, 58, 57, 52, 54]);
+        p.sq[wk as usize] = Some((Color::White, Kind::King));
+        p.sq[bk as usize] = Some((Color::Black, Kind::King));
+        // pawns on the seventh / second rank with enemy pieces to capture on the last rank
+        for _ in 0..rng.range(1, 4) {
+            let white = rng.chance(1, 2);
+            let f = rng.below(8) as i32;
+            let (pr, lr, c) = if white { (6, 7, Color::White) } else { (1, 0, Color::Black) };
+            let ps = sq_at(f, pr).unwrap();
+            if p.sq[ps as usize].is_some() {
+                continue;
+            }
+            p.sq[ps as usize] = Some((c, Kind::Pawn));
+            for df in [-1, 1] {
+                if rng.chance(2, 3) {
+                    if let Some(t) = sq_at(f + df, lr) {
+                        if p.sq[t as usize].is_none() {
+                            p.sq[t as usize] = Some((c.other(), *rng.pick(&[Kind::Rook, Kind::Knight, Kind::Bishop, Kind::Queen])));
+                        }
+                    }
+                }
+            }
+        }
+        // queens and other pieces scattered so that exchanges are on
+        for _ in 0..rng.range(4, 14) {
+            let s = rng.below(64) as usize;
+            if p.sq[s].is_some() {
+                continue;
+            }
+            let c = if rng.chance(1, 2) { Color::White } else { Color::Black };
+            let k = *rng.pick(&[Kind::Queen, Kind::Queen, Kind::Rook, Kind::Knight, Kind::Bishop, Kind::Pawn, Kind::Pawn]);
+            if k == Kind::Pawn && (rank_of(s as u8) == 0 || rank_of(s as u8) == 7) {
+                continue;
+            }
+            p.sq[s] = Some((c, k));
+        }
+        p.stm = if rng.chance(1, 2) { Color::White } else { Color::Black };
+        if is_legal_position(&p) && has_legal_move(&p) {
+            return p;
+        }
+    }
+}
